@@ -1,10 +1,16 @@
 import re
+from textwrap import indent
 from typing import TYPE_CHECKING
 
 from pydbml.tools import comment
 
 if TYPE_CHECKING:  # pragma: no cover
     from pydbml.classes import Note
+
+
+def indent_text(text: str, prefix: str = '    ') -> str:
+    '''Indent every non-empty line, blank-only lines included (textwrap.indent alone skips them)'''
+    return indent(text, prefix, lambda line: line.strip('\n') != '')
 
 
 def prepare_text_for_dbml(text: str) -> str:
